@@ -189,8 +189,9 @@ def _c08():
 def _c05():
     names = ["e", "s1", "s1_absent", "s2d0_l", ("s2d0_r", "thorough"), ("s2d1_00", "thorough"), "s2d1_01", "s2d1_1",
              ("s2d2_010", "thorough"), ("s2d2_00", "thorough"), ("s2d2_1", "thorough"),
-             ("s3a_0", "thorough"), ("s3a_11", "thorough"), "s3a_compressed", ("s3c_000", "thorough"), ("s3c_01", "thorough"),
-             ("s4b_001", "thorough")]
+             ("s3a_0", "thorough"), ("s3a_11", "thorough"), "s3a_compressed", ("s3c_000", "thorough"), ("s3c_01", "thorough")]
+    # c05_hp_s4b_001 (4 pairs) is not registered: it needs more than the N = 20 SymHash table entries
+    # (measured in the thorough run of 2026-09-26: the model's own bound assertion fired)
     return _family("c05_hp_", "c05", names,
                    "the honest path proof of the named terminal verifies against spec_root(S); confirm_value/confirm_nonexistence "
                    "equal membership in S for every window key below the terminal and are KeyOutOfScope for every other key",
@@ -321,6 +322,11 @@ P_COMMIT_CHECK = [P(fn, nm + ": the previous-root comparison precedes the rollba
                                  ("commit_check_session_try", "FinishedSession::try_commit_nonblocking"),
                                  ("commit_check_overlay_commit", "Overlay::commit"),
                                  ("commit_check_overlay_try", "Overlay::try_commit_nonblocking")]]
+P_DIR_LOCK = P("dir_lock_first", "store::create / Store::open: Flock::lock returned Ok before any database file is created, opened, read or "
+               "written, before the I/O pool starts, and on every Ok return", P_BOUNDS, assumes=[ASSUME_P])
+P_FLOCK_RESULT = P("flock_result", "Flock::lock: Ok(Flock) only on the success arm of try_lock_exclusive; no fallible value dropped", P_BOUNDS, assumes=[ASSUME_P])
+P_RELEASE = P("release_after_drain", "Drop for store::Shared: IoPool::shutdown before the lock is released; IoPool::shutdown closes the channel "
+              "and joins the workers before returning", P_BOUNDS, assumes=[ASSUME_P])
 P_POISON = P("store_commit_poison", "Store::commit: poisoned is loaded before Sync::sync; an Err from Sync::sync is returned only after "
              "poisoned was stored", P_BOUNDS, assumes=[ASSUME_P])
 P_RECOVER_ORDER = P("recover_order", "bitbox::recover: no HT write after the WAL was truncated", P_BOUNDS, assumes=[ASSUME_P])
@@ -467,6 +473,14 @@ PROPERTIES = {
                            "poisons the store before it is returned; a failure before the switch-over returns before any post-meta step. "
                            "Counterexamples are replayed with injected page-write failures against the real crate.",
             "outside": ["beatree / rollback / seglog error paths", "hangs (channel pairing)", "what the reopened state is"]},
+    "C20": {"level": "model_checking", "obligations": [P_DIR_LOCK, P_FLOCK_RESULT, P_RELEASE],
+            "explanation": "The in-process half of directory exclusivity, decided over the MIR event structure: the advisory lock is "
+                           "acquired (and its result honoured) before any database file is touched, a failed lock attempt returns "
+                           "without touching anything, and the lock is released only after the I/O workers have been joined. "
+                           "Counterexamples are replayed under strace (order of flock / openat / completions) and by a second open "
+                           "from a thread and from a child process.",
+            "outside": ["the kernel's flock semantics", "racing creation of one empty directory (the exists/empty test before the lock is a documented TOCTOU)",
+                        "process death / kill", "that every background writer goes through the I/O pool"]},
     "C17": {"level": "model_checking", "obligations": [P_PRE_META, P_SYNC_ORDER, P_RECOVER_ORDER, P_ROLLBACK_SYNC, M_ALLOC_GROW],
             "explanation": "Until Meta::write returned, the bitbox side writes only the WAL: no HT page write, no WAL truncation. Decided "
                            "over the MIR event structure of the pre-meta functions.",
